@@ -170,8 +170,12 @@ Definition suite_body (inp obs : list tok) : verdict :=
   | TN _ :: obs' =>
       match parse_case inp, parse_obs obs' with
       | Some c, Some ob =>
-          {| v_model := TN (first_class (run_C01 c)) :: map enc_obs (run_C01 c);
-             v_ok := ok_C01 c ob; v_wellformed := true |}
+          (* one answer per request, else the line is not an observation of this case (e.g. the
+             harness's "could not decode" marker) - a protocol error, not a verdict *)
+          if N.of_nat (length ob) =? N.of_nat (length (c_ops c)) then
+            {| v_model := TN (first_class (run_C01 c)) :: map enc_obs (run_C01 c);
+               v_ok := ok_C01 c ob; v_wellformed := true |}
+          else malformed
       | _, _ => malformed
       end
   | _ => malformed
